@@ -6,6 +6,7 @@ import H3.Props.C11Closed
 import H3.Props.C12
 import H3.Props.C14
 import H3.Lemmas.Setup
+import H3.Lemmas.SendCompletion
 /-! # C06 — no peer behaviour makes h3 panic or leaves a call pending for ever
 
 Property theorems only; vocabulary and proofs are in `H3/Lemmas/C06{Frame,Req,Run,Ctl}.lean`.
@@ -416,6 +417,94 @@ theorem C06_send_side (w : WriteBuf.WB) (hwf : w.WF) (script : List Nat) :
 example : (match WriteBuf.write (WriteBuf.fromFrame (.data [9, 8, 7])) [1, 0, 2, 1] with
     | .pending out w => (out, w.view)
     | _ => ([], [])) = ([0x00, 0x03, 9], [8, 7]) := by decide +kernel
+
+/-- **Completion of the send-side calls.**  `c` is any API call of the send side as the sequence of
+    transport waits it makes (`SendCall`): client `send_request` = `poll_open_bidi` (waits for stream
+    credit) + one `stream::write`; `send_response` / `send_data` / `send_trailers` = one
+    `stream::write`; `finish` = the grease frame if one is due + `poll_finish`.  The transport's
+    answers (`Acc`) are chosen by the peer: `take k` = flow control (`take 0` = `Pending`), `err e` =
+    the call fails — `StreamTerminated{code}` once the peer's STOP_SENDING has arrived, a connection
+    error once the peer closed the connection or it timed out.  For every call over well-formed
+    `WriteBuf`s (every `From` conversion yields one, `C14_conversions`) and EVERY script:
+    * no panic;
+    * `Ok` ⇒ exactly the call's content went out;
+    * `Err(e)` ⇒ `e` is the FIRST error answer of the script, what went out is a prefix of the
+      content, and nothing that arrives later changes the outcome;
+    * still `Pending` at the end of the script ⇒ the script contains NO error answer and fewer
+      progress answers than the call needs (`need` = one per wait, one per byte: a crude but
+      sufficient bound), a prefix of the content went out — and as soon as an error answer arrives
+      (STOP_SENDING, close, timeout), whatever follows it, the call returns exactly that error;
+    * hence: a script that contains an error answer, or enough acceptance, never leaves the call
+      pending — it ends with `Ok` or with an error of the script;
+    * the single write loop `writeE` (`stream::write`): the same, with the buffer that is left
+      (`DrainOK`: well-formed, not empty, `out ++ left.view` = the original content). -/
+theorem C06_send_completion (c : WriteBuf.SendCall) (hwf : ∀ w ∈ c.writes, w.WF) (script : List WriteBuf.Acc) :
+    WriteBuf.callE c script ≠ .panic ∧
+    (∀ out, WriteBuf.callE c script = .ok out → out = c.content) ∧
+    (∀ out e, WriteBuf.callE c script = .failed out e →
+      (∃ pre post, script = pre ++ .err e :: post ∧ WriteBuf.NoErr pre) ∧ (∃ t, out ++ t = c.content) ∧
+      ∀ more, WriteBuf.callE c (script ++ more) = .failed out e) ∧
+    (∀ out, WriteBuf.callE c script = .pending out →
+      WriteBuf.NoErr script ∧ WriteBuf.posTakes script < c.need ∧ (∃ t, out ++ t = c.content) ∧
+      ∀ e more, WriteBuf.callE c (script ++ .err e :: more) = .failed out e) ∧
+    (((∃ e, WriteBuf.Acc.err e ∈ script) ∨ c.need ≤ WriteBuf.posTakes script) →
+      (∃ out, WriteBuf.callE c script = .ok out) ∨
+      ∃ out e, WriteBuf.callE c script = .failed out e ∧ WriteBuf.Acc.err e ∈ script) ∧
+    (∀ w : WriteBuf.WB, w.WF → WriteBuf.DrainOK w [] script (WriteBuf.writeE (some w) script)) := by
+  have h := WriteBuf.stagesE_ok c.stages (WriteBuf.stages_wf c hwf) [] script
+  have hcall : WriteBuf.callE c script = WriteBuf.stagesE c.stages [] script := rfl
+  have hcont : WriteBuf.content c.stages = c.content := rfl
+  have hneed : WriteBuf.need c.stages = c.need := rfl
+  rw [← hcall] at h
+  refine ⟨?_, ?_, ?_, ?_, ?_, fun w hw => WriteBuf.drainE_ok w hw [] script⟩
+  · intro hp; rw [hp] at h; exact h
+  · intro out ho; rw [ho] at h; simpa [WriteBuf.CallOK, hcont] using h
+  · intro out e ho
+    rw [ho] at h
+    obtain ⟨h1, ⟨t, ht⟩, h3⟩ := h
+    exact ⟨h1, ⟨t, by rw [ht, hcont]; rfl⟩, h3⟩
+  · intro out ho
+    rw [ho] at h
+    obtain ⟨h1, h2, ⟨t, ht⟩, h4⟩ := h
+    exact ⟨h1, by rw [← hneed]; exact h2, ⟨t, by rw [ht, hcont]; rfl⟩, h4⟩
+  · intro hyp
+    cases ho : WriteBuf.callE c script with
+    | ok out => exact Or.inl ⟨out, rfl⟩
+    | failed out e =>
+      rw [ho] at h
+      obtain ⟨⟨pre, post, hs, _⟩, _, _⟩ := h
+      exact Or.inr ⟨out, e, rfl, by rw [hs]; simp⟩
+    | pending out =>
+      rw [ho] at h
+      obtain ⟨h1, h2, _, _⟩ := h
+      rcases hyp with ⟨e, he⟩ | hn
+      · exact (h1 e he).elim
+      · rw [← hneed] at hn; omega
+    | panic => rw [ho] at h; exact h.elim
+
+-- non-vacuity.  `send_data(09 08 07)` (header 00 03, then the payload) gets one byte of write credit, then
+-- none: pending; the peer's STOP_SENDING (code 7) ends the call with that error
+example : (WriteBuf.fromFrame (.data [9, 8, 7])).map (fun w =>
+    (WriteBuf.callE { writes := [w] } [.take 1, .take 0],
+     WriteBuf.callE { writes := [w] } [.take 1, .take 0, .err (.terminated 7), .take 100])) =
+    some (.pending [0x00], .failed [0x00] (.terminated 7)) := by decide +kernel
+-- enough credit in pieces: header rest, then the payload
+example : (WriteBuf.fromFrame (.data [9, 8, 7])).map (fun w =>
+    WriteBuf.callE { writes := [w] } [.take 1, .take 0, .take 9, .take 2, .take 0, .take 1]) =
+    some (.ok [0x00, 0x03, 9, 8, 7]) := by decide +kernel
+-- client `send_request` waits for stream credit (`poll_open_bidi` Pending twice) when the connection times out;
+-- with credit it opens, and is stopped in the middle of the HEADERS frame
+example : (WriteBuf.fromFrame (.headers [0xd1, 0xd7])).map (fun w =>
+    (WriteBuf.callE { opens := true, writes := [w] } [.take 0, .take 0, .err (.conn 1)],
+     WriteBuf.callE { opens := true, writes := [w] } [.take 0, .take 1, .take 2, .take 1, .err (.terminated 0)])) =
+    some (.failed [] (.conn 1), .failed [0x01, 0x02, 0xd1] (.terminated 0)) := by decide +kernel
+-- `finish` with a grease frame due: the frame, then `poll_finish`, which waits until the peer closes
+example : (WriteBuf.fromFrame (.grease 0x21)).map (fun w =>
+    (WriteBuf.callE { writes := [w], finishes := true } [.take 100, .take 0],
+     WriteBuf.callE { writes := [w], finishes := true } [.take 100, .take 0, .err (.conn 0)],
+     WriteBuf.callE { writes := [w], finishes := true } [.take 100, .take 1])) =
+    some (.pending [0x21, 0x06, 103, 114, 101, 97, 115, 101], .failed [0x21, 0x06, 103, 114, 101, 97, 115, 101] (.conn 0),
+          .ok [0x21, 0x06, 103, 114, 101, 97, 115, 101]) := by decide +kernel
 
 /-! ## 8. The setup of a connection against a transport that fails -/
 
